@@ -44,6 +44,7 @@ func scenC10(r *Run) {
 	f := newFedi(r)
 	t := r.W
 	f.QueryURLs = t.Chance(1, 4)
+	f.Big = t.Chance(1, 16)
 	base := simEpoch.Add(-48 * time.Hour)
 	// twin paths: consecutive remote items live under the same path on two different hosts
 	twins := t.Chance(1, 4)
@@ -61,11 +62,22 @@ func scenC10(r *Run) {
 		}
 		return f.noteItem("h1.example", base.Add(time.Duration(f.seq)*time.Minute), remote)
 	})
-	ref, finite := l.Reference(80)
+	refLimit := 80
+	if f.Big {
+		refLimit = 900
+		r.S.Probe("c10_big_pages_and_requests")
+	}
+	ref, finite := l.Reference(refLimit)
 	nreq := t.Range(1, 14)
+	if f.Big {
+		nreq = t.Range(1, 5)
+	}
 	sizes := make([]uint, nreq)
 	for i := range sizes {
 		sizes[i] = uint(t.Weighted(1, 3, 3, 2, 2, 1, 1, 1, 1, 1)) // 0..9
+		if f.Big && t.Chance(3, 4) {
+			sizes[i] = uint([]int{33, 40, 64, 65, 100, 129, 150, 250}[t.Draw(8)] + t.Draw(3))
+		}
 	}
 	r.Describe("scenario", "c10")
 	r.Describe("layout", l.Describe())
@@ -116,7 +128,7 @@ func scenC10(r *Run) {
 			task := r.Spawn(fmt.Sprintf("%sharvest%d", phase, i), func() {
 				out.items, out.cont, out.off = c.Harvest(n, o)
 			})
-			end := r.Drive(func() bool { return task.Done }, hugeHorizon, 20000)
+			end := r.Drive(func() bool { return task.Done }, hugeHorizon, 400000)
 			if !task.Done {
 				r.Violate("C10", "M-live", "harvest-did-not-return", fmt.Sprintf("request #%d (n=%d) on layout %s did not return (%v); delivered so far %d items", i, n, l.Describe(), end, len(got)))
 				return false
@@ -240,7 +252,7 @@ func scenC10(r *Run) {
 				healed = true
 			}
 		}
-		ref2, finite2 := l.Reference(80)
+		ref2, finite2 := l.Reference(refLimit)
 		sizes2 := make([]uint, t.Range(1, 10))
 		for i := range sizes2 {
 			sizes2[i] = uint(t.Weighted(1, 2, 3, 2, 2, 1, 1, 1, 1, 3))
